@@ -76,6 +76,10 @@ func init() {
 			"60% of these cases install a router-level publisher and a subscriber decorator (they hand the end through unchanged), and 88% script 1..2 transient faults per round (round 0 = Run; probability 0.4 for Run, 0.75 per batch): " +
 			"Subscribe fails once for one (subscriber, topic) or for the k-th Subscribe call of the round, or the k-th publisher- / subscriber-decorator call fails once; every failing RunHandlers call is repeated until it returns nil, " +
 			"and when the fault makes Run itself fail, RunHandlers is called (and repeated) after Run returned; then one probe message is sent on every live subscription and every registered handler must be invoked for one (handler-not-routed, decided by the quiescence detector); the ordinary streams follow; " +
+			"wrapping router-level decorators (35% of ALL cases, suffix /wrapdeco, drawn from a PRNG stream of their own so the rest of the case is unchanged): 1..2 publisher decorators, 1..2 subscriber decorators or both, added before Run (before or after the pass-through ones of the start-up class), " +
+			"each of which wraps the end it is given in a value of another type that forwards every call unchanged - pointer / value of a named struct type, a Stringer whose String() is the empty string, the name of another end of the case, '*<id>/decorator' or arbitrary UTF-8, " +
+			"or watermill's own MessageTransformPublisherDecorator / MessageTransformSubscriberDecorator with a transform that does nothing; a nil publisher is handed through as nil; they are applied again for late handlers and on every RunHandlers retry; " +
+			"the oracle is unchanged: the type names in the context must be those of the ends the handler was registered with (ctx-in-handler, ctx-on-produced), and calls are still observed at the scripted ends behind the wrappers; " +
 			"one message stream per subscription (0..4 emissions, optional failing first attempt + redelivery), " +
 			"streams driven concurrently (pipelined or settle-before-next) or by one sequential interleaving; output shapes 0..n: fresh objects, the consumed message, one object twice, middleware-appended objects; " +
 			"output values: in 50% of the cases (class suffix /oddvalues) every fresh output draws its UUID from {unique, empty, one UUID shared by several outputs of the invocation, the consumed message's UUID, a case-wide constant}, " +
@@ -101,6 +105,7 @@ func init() {
 			"start-up faults are transient and scripted (a finite number of failing Subscribe / decorator calls); RunHandlers is retried until it returns nil and what it returns or does while a fault is pending is not judged; the routing demand starts when the last RunHandlers call has returned nil",
 			"handlers that a failing Run call had already started are stopped by Run's own context cancellation: they are recognised by Handler.Started() being closed when Run returned and are exempt from handler-not-routed; subscriptions whose context is already cancelled when the bring-up is over receive no messages",
 			"a publisher / subscriber whose String() returns the empty string sets no type name in the context; such handlers are treated like handlers with an empty name or topic (no emission that carries another hop's context, no object shared by all handlers)",
+			"'that handler's Pub/Sub type names' are the names of the publisher / subscriber the handler was registered with (AddHandler arguments), also when router-level decorators wrap them in values of other types (godoc of PublisherNameFromCtx: 'the message publisher type that published the message ... for Kafka it will be kafka.Publisher'; components/metrics reads these values from inside such decorators to label its series); the harness's wrapping decorators forward every call unchanged and never touch a message",
 			"invocations that return one and the same long-lived object never overlap (the application's obligation: the Router sets the context on produced messages), and an object shared by several handlers is only used where every handler sets all five context values",
 		},
 	})
@@ -682,6 +687,16 @@ type caseState struct {
 	probes        []*emPlan
 	probesSent    int
 
+	// wrapping router-level decorators (see genWrapDeco): drawn for every class of case from a PRNG stream of their own
+	wrapPub       []wrapSpec
+	wrapSub       []wrapSpec
+	wrapFirst     bool         // added before the pass-through decorators of the start-up class
+	wrapPubCalls  atomic.Int64 // decorator invocations that wrapped a publisher
+	wrapSubCalls  atomic.Int64
+	wrapNilPub    atomic.Int64 // publisher decorator invocations that were handed a nil publisher (passed through)
+	wrapPublishes atomic.Int64 // Publish calls that went through a wrapper
+	wrapSubscribe atomic.Int64 // Subscribe calls that went through a wrapper
+
 	odd bool // odd-output case: unusual UUIDs / payloads / metadata / constructor-less objects among the outputs and the emissions
 	// long-lived objects: statics[h] is returned by handler h's function for every "X" token. Only drawn in cases whose
 	// emissions are all settled before the next one of the same stream is emitted, so that invocations returning one
@@ -1166,6 +1181,186 @@ func (c *caseState) genLayers() {
 		body = append(body[:at], append([][2]int{{1, l.id}}, body[at:]...)...)
 	}
 	c.rlOps = append(c.rlOps, body...)
+}
+
+// ---------------------------------------------------------------------------------------------
+// wrapping router-level decorators. Router.AddPublisherDecorators / AddSubscriberDecorators "wrap" the ends of every
+// handler; what a decorator returns is normally a value of ANOTHER type (message.MessageTransformPublisherDecorator,
+// the metrics decorators of components/metrics, ...). The statement speaks of "that handler's ... Pub/Sub type names",
+// PublisherNameFromCtx of "the message publisher type that published the message ... for Kafka it will be
+// kafka.Publisher": the names are those of the ends the handler was registered with, whatever wraps them at run time
+// (components/metrics labels its series with exactly these values, from inside such a decorator). Every wrapper
+// forwards each call unchanged, so routing, arguments and settlement are judged exactly as without decorators.
+
+const wrapShare = 0.35
+
+const (
+	wkPtr       = iota // pointer of a named struct type, no String()
+	wkValue            // value of a named struct type, no String()
+	wkStringer         // Stringer with a scripted String() result
+	wkTransform        // watermill's own MessageTransform{Publisher,Subscriber}Decorator with a transform that does nothing
+)
+
+var wkNames = []string{"ptr", "value", "stringer", "watermill-transform"}
+
+type wrapSpec struct {
+	kind int
+	name string // String() of the Stringer kind
+}
+
+type wrapPubP struct {
+	in message.Publisher
+	c  *caseState
+}
+
+func (w *wrapPubP) Publish(topic string, msgs ...*message.Message) error {
+	w.c.wrapPublishes.Add(1)
+	return w.in.Publish(topic, msgs...)
+}
+func (w *wrapPubP) Close() error { return w.in.Close() }
+
+type wrapPubV struct {
+	in message.Publisher
+	c  *caseState
+}
+
+func (w wrapPubV) Publish(topic string, msgs ...*message.Message) error {
+	w.c.wrapPublishes.Add(1)
+	return w.in.Publish(topic, msgs...)
+}
+func (w wrapPubV) Close() error { return w.in.Close() }
+
+type wrapPubS struct {
+	wrapPubP
+	n string
+}
+
+func (w *wrapPubS) String() string { return w.n }
+
+type wrapSubP struct {
+	in message.Subscriber
+	c  *caseState
+}
+
+func (w *wrapSubP) Subscribe(ctx context.Context, topic string) (<-chan *message.Message, error) {
+	w.c.wrapSubscribe.Add(1)
+	return w.in.Subscribe(ctx, topic)
+}
+func (w *wrapSubP) Close() error { return w.in.Close() }
+
+type wrapSubV struct {
+	in message.Subscriber
+	c  *caseState
+}
+
+func (w wrapSubV) Subscribe(ctx context.Context, topic string) (<-chan *message.Message, error) {
+	w.c.wrapSubscribe.Add(1)
+	return w.in.Subscribe(ctx, topic)
+}
+func (w wrapSubV) Close() error { return w.in.Close() }
+
+type wrapSubS struct {
+	wrapSubP
+	n string
+}
+
+func (w *wrapSubS) String() string { return w.n }
+
+// genWrapDeco draws the wrapping decorators of the case. The choices come from a PRNG stream of their own (derived
+// from the run seed and the case index like e.R), so that the rest of the case is the same with and without them.
+func (c *caseState) genWrapDeco() {
+	r := vlib.NewRand(c.e.Seed, "C08/wrapdeco", c.e.Idx)
+	if !r.Chance(wrapShare) {
+		return
+	}
+	nP, nS := 0, 0
+	switch r.Intn(10) {
+	case 0, 1, 2, 3:
+		nP = r.Range(1, 2)
+	case 4, 5:
+		nS = r.Range(1, 2)
+	default:
+		nP, nS = r.Range(1, 2), r.Range(1, 2)
+	}
+	names := func() string {
+		switch r.Intn(5) {
+		case 0:
+			return ""
+		case 1:
+			return c.pubs[r.Intn(len(c.pubs))].name
+		case 2:
+			return c.subs[r.Intn(len(c.subs))].name
+		case 3:
+			return "*" + c.e.ID() + "/decorator"
+		}
+		return c.e.ID() + "/decorator " + r.UTF8(6)
+	}
+	for i := 0; i < nP; i++ {
+		c.wrapPub = append(c.wrapPub, wrapSpec{kind: r.Intn(4), name: names()})
+	}
+	for i := 0; i < nS; i++ {
+		c.wrapSub = append(c.wrapSub, wrapSpec{kind: r.Intn(4), name: names()})
+	}
+	c.wrapFirst = r.Bool()
+}
+
+// addWrapDeco installs them. A publisher decorator hands a nil publisher (AddHandler with a nil publisher) through as it
+// is: wrapping it would turn the handler into one that has a publisher.
+func (c *caseState) addWrapDeco(router *message.Router) {
+	for _, ws := range c.wrapPub {
+		ws := ws
+		transform := message.MessageTransformPublisherDecorator(func(*message.Message) {})
+		router.AddPublisherDecorators(func(p message.Publisher) (message.Publisher, error) {
+			if p == nil {
+				c.wrapNilPub.Add(1)
+				return p, nil
+			}
+			c.wrapPubCalls.Add(1)
+			switch ws.kind {
+			case wkPtr:
+				return &wrapPubP{in: p, c: c}, nil
+			case wkValue:
+				return wrapPubV{in: p, c: c}, nil
+			case wkStringer:
+				return &wrapPubS{wrapPubP: wrapPubP{in: p, c: c}, n: ws.name}, nil
+			}
+			return transform(&wrapPubP{in: p, c: c})
+		})
+	}
+	for _, ws := range c.wrapSub {
+		ws := ws
+		transform := message.MessageTransformSubscriberDecorator(func(*message.Message) {})
+		router.AddSubscriberDecorators(func(s message.Subscriber) (message.Subscriber, error) {
+			c.wrapSubCalls.Add(1)
+			switch ws.kind {
+			case wkPtr:
+				return &wrapSubP{in: s, c: c}, nil
+			case wkValue:
+				return wrapSubV{in: s, c: c}, nil
+			case wkStringer:
+				return &wrapSubS{wrapSubP: wrapSubP{in: s, c: c}, n: ws.name}, nil
+			}
+			return transform(&wrapSubP{in: s, c: c})
+		})
+	}
+}
+
+func (c *caseState) wrapDesc() string {
+	if len(c.wrapPub)+len(c.wrapSub) == 0 {
+		return ""
+	}
+	d := "pub"
+	for _, ws := range c.wrapPub {
+		d += "." + wkNames[ws.kind]
+	}
+	d += " sub"
+	for _, ws := range c.wrapSub {
+		d += "." + wkNames[ws.kind]
+	}
+	if c.wrapFirst {
+		d += " first"
+	}
+	return d
 }
 
 // ---------------------------------------------------------------------------------------------
@@ -1673,6 +1868,10 @@ func run(e *vlib.Env) vlib.Result {
 			c.addHandlerMWs(c.hs[op[1]])
 		}
 	}
+	c.genWrapDeco()
+	if c.wrapFirst {
+		c.addWrapDeco(router)
+	}
 	if c.useDeco {
 		// router-level decorators that hand the end through unchanged unless a scripted fault is due (added before Run)
 		router.AddPublisherDecorators(func(p message.Publisher) (message.Publisher, error) {
@@ -1687,6 +1886,9 @@ func run(e *vlib.Env) vlib.Result {
 			}
 			return s, nil
 		})
+	}
+	if !c.wrapFirst {
+		c.addWrapDeco(router)
 	}
 	ctx, cancel := context.WithCancel(context.Background())
 	defer cancel()
@@ -2726,6 +2928,21 @@ func (c *caseState) finish(res vlib.Result, ctl *vlib.Ctl) vlib.Result {
 			res.Count("scripted_String_"+pe.nameKind, 1)
 		}
 	}
+	if wd := c.wrapDesc(); wd != "" {
+		res.Class += "/wrapdeco"
+		res.Count("cases_with_wrapping_decorators", 1)
+		for _, ws := range c.wrapPub {
+			res.Count("wrapping_publisher_decorator_"+wkNames[ws.kind], 1)
+		}
+		for _, ws := range c.wrapSub {
+			res.Count("wrapping_subscriber_decorator_"+wkNames[ws.kind], 1)
+		}
+		res.Count("wrapping_decorator_calls_publisher", int(c.wrapPubCalls.Load()))
+		res.Count("wrapping_decorator_calls_subscriber", int(c.wrapSubCalls.Load()))
+		res.Count("wrapping_decorator_calls_nil_publisher_passed_through", int(c.wrapNilPub.Load()))
+		res.Count("publish_calls_through_wrappers", int(c.wrapPublishes.Load()))
+		res.Count("subscribe_calls_through_wrappers", int(c.wrapSubscribe.Load()))
+	}
 	if c.useStatic {
 		res.Class += "/longlived"
 		res.Count("cases_with_long_lived_output_objects", 1)
@@ -2760,7 +2977,7 @@ func (c *caseState) finish(res vlib.Result, ctl *vlib.Ctl) vlib.Result {
 		bringUp = fmt.Sprintf("batches=%s deco=%v fired=%v retries=%d runFailed=%v s0=%d", strings.Join(bs, "+"), c.useDeco, c.fired, c.retries, c.runFailed, len(c.s0))
 		c.fmu.Unlock()
 	}
-	res.Sig = vlib.Sig(strings.Join(wiring, ","), strings.Join(regProg, ","), strings.Join(shapes, ","), drive, c.maxAct.Load(), c.odd, c.useStatic, c.staticShared, bringUp)
+	res.Sig = vlib.Sig(strings.Join(wiring, ","), strings.Join(regProg, ","), strings.Join(shapes, ","), drive, c.maxAct.Load(), c.odd, c.useStatic, c.staticShared, bringUp, c.wrapDesc())
 	res.Hooks = ctl.Counts()
 	res.Count("handlers", len(c.hs))
 	res.Count("max_concurrent_invocations_sum", int(c.maxAct.Load()))
@@ -2815,8 +3032,11 @@ func (c *caseState) finish(res vlib.Result, ctl *vlib.Ctl) vlib.Result {
 	if c.startup {
 		res.Sample.(map[string]any)["bring_up"] = bringUp
 	}
+	if wd := c.wrapDesc(); wd != "" {
+		res.Sample.(map[string]any)["wrapping_decorators"] = wd
+	}
 	if res.Failed() && res.Witness == nil {
-		res.Witness = map[string]any{"handlers": hsample, "layers": layerNames, "registration": regProg, "invocations": trace, "publishes": pubs}
+		res.Witness = map[string]any{"handlers": hsample, "layers": layerNames, "registration": regProg, "invocations": trace, "publishes": pubs, "wrapping_decorators": c.wrapDesc()}
 	}
 	return res
 }
